@@ -282,12 +282,16 @@ fn assignments(l: &Layout, alpha: &[BigUint]) -> Vec<Vec<Vec<BigUint>>> {
 fn big_shapes() -> Vec<Case> {
     let mut out = vec![];
     let consts: Vec<BigUint> = vec![big(0), big(255), big(256), pow2(240), pow2(248) - big(1), pow2(248), p() - big(1)];
-    for n in [6usize, 127, 128, 129, 255, 256, 257, 300, 16384, 16385] {
+    // (node counts around 2^7, 2^8, 2^14 and 2^16: the widths at which counts and back references change their encoded size)
+    for n in [6usize, 127, 128, 129, 255, 256, 257, 300, 16384, 16385, 65535, 65536, 65537, 100_000] {
         for (ci, c) in consts.iter().enumerate() {
-            if n > 300 && ci > 1 {
+            if n > 300 && ci > 1 || n > 20_000 && ci > 0 {
                 continue;
             }
             for last_op in [2u32, 0, 3, 9, 16, 18] {
+                if n > 20_000 && last_op != 2 && last_op != 9 {
+                    continue;
+                }
                 let mut nodes = vec![GNode::Input(1), GNode::Input(2), GNode::Const(c.clone())];
                 for i in 3..n - 1 {
                     let op = [2u32, 0, 3][i % 3];
